@@ -99,6 +99,10 @@ type obsState struct {
 	dupUpdates                             int
 	maxTick                                int64
 	dupAtomic, wildBeforeSync, whileDown   bool
+	// idle streams: when the current subscription delivered something last, and the longest time between two
+	// deliveries of one subscription after its sync marker (a measurement for labels, never for a verdict)
+	lastRecv time.Time
+	maxIdle  time.Duration
 }
 
 // reached is called under hub.mu.
@@ -134,6 +138,15 @@ func (o *obsState) handle(h *hub, clock *play, n client.Notification) error {
 		}
 	}
 	mark(&o.attemptFirst)
+	if o.spec.Library {
+		mark(&o.dialed) // the library dialled for itself: that the connection stands shows only now
+	}
+	if now := time.Now(); true {
+		if d := now.Sub(o.lastRecv); o.synced && !o.lastRecv.IsZero() && d > o.maxIdle {
+			o.maxIdle = d
+		}
+		o.lastRecv = now
+	}
 	switch u := n.(type) {
 	case client.Sync:
 		mark(&o.first)
@@ -215,8 +228,15 @@ func (o *obsState) run(h *hub, addr string, clock *play) {
 	if o.spec.Slow {
 		typ = slowType
 	}
+	if o.spec.Library {
+		typ = gclient.Type
+	}
+	timeout := 15 * time.Second
+	if o.spec.TimeoutMs > 0 {
+		timeout = time.Duration(o.spec.TimeoutMs) * time.Millisecond
+	}
 	// ONE Query value for everything this observer subscribes with
-	q := client.Query{Addrs: []string{addr}, Target: o.target, Queries: clientPaths(o.spec.Queries), Type: client.Once, Timeout: 15 * time.Second,
+	q := client.Query{Addrs: []string{addr}, Target: o.target, Queries: clientPaths(o.spec.Queries), Type: client.Once, Timeout: timeout,
 		TLS: &tls.Config{InsecureSkipVerify: true}}
 	if o.spec.OnceFirst {
 		// a snapshot first (the scripts are playing: what it shows is not judged, that it works is)
@@ -243,6 +263,7 @@ func (o *obsState) run(h *hub, addr string, clock *play) {
 			h.change(func() {
 				o.resets++
 				o.synced, o.done, o.attemptFirst = false, false, false
+				o.lastRecv = time.Time{}
 				o.seen = map[string]bool{}
 				o.lastReset = time.Now()
 			})
@@ -367,6 +388,10 @@ func (fr *flowRun) stop() {
 
 const hang = 20 * time.Second
 
+// idleEnough: a subscriber's stream that carried nothing for this long and then an update went through what the
+// "quiet" part is after (three keepalive intervals of gRPC's smallest period, and a margin). Only a label.
+const idleEnough = 33 * time.Second
+
 // wait returns when every script has been sent completely and every observer has caught up.
 // The only wall-clock judgement is the hang rule of the engine: nothing moved for 20 s
 // although everything is alive => the case has no verdict (run() starts it once more).
@@ -406,7 +431,11 @@ func (fr *flowRun) wait(col *collectorProc) error {
 				case o.err != nil && strings.Contains(o.err.Error(), "Dialer("):
 					err = &inconclusive{msg: fmt.Sprintf("observer %d could not connect to the collector: %v", o.idx, o.err)}
 				default:
-					err = &violation{"rpc-error", fmt.Sprintf("observer %d: STREAM subscription for target %q through the collector ended: %v", o.idx, o.target, o.err)}
+					idle := ""
+					if !o.lastRecv.IsZero() {
+						idle = fmt.Sprintf(" (nobody cancelled it; %v after its last delivery; whatever the targets stream from now on never reaches this client)", now.Sub(o.lastRecv).Round(100*time.Millisecond))
+					}
+					err = &violation{"rpc-error", fmt.Sprintf("observer %d: STREAM subscription for target %q through the collector ended%s: %v; %s", o.idx, o.target, idle, o.err, fr.describe(o))}
 				}
 			}
 			if o.done && (o.cutsExecuted >= len(o.spec.Cuts) || !o.spec.Reconnect) {
@@ -455,6 +484,12 @@ func (fr *flowRun) describe(o *obsState) string {
 	if o.spec.Slow {
 		d += ", static flow-control windows"
 	}
+	if o.spec.Library {
+		d += fmt.Sprintf(", connection dialled by the client library, Query.Timeout %dms", o.spec.TimeoutMs)
+	}
+	if o.maxIdle >= 10*time.Second {
+		d += fmt.Sprintf(", its stream carried nothing for %v at one time", o.maxIdle.Round(time.Second))
+	}
 	if len(o.spec.Pauses) > 0 {
 		d += fmt.Sprintf(", handler blocked %d time(s)", o.pausesEntered)
 	}
@@ -491,6 +526,11 @@ func (fr *flowRun) check(ref map[string]interface{}, st *stats) error {
 		st.cutsDone = st.cutsDone || o.cutsExecuted-o.cutNoEffect > 0
 		st.cutNoEffect = st.cutNoEffect || o.cutNoEffect > 0
 		st.resubscribed = st.resubscribed || o.resets > 0
+		st.libraryObserver = st.libraryObserver || o.spec.Library
+		st.idleObserver = st.idleObserver || o.maxIdle >= idleEnough
+		if o.maxIdle > st.longestIdle {
+			st.longestIdle = o.maxIdle
+		}
 	}
 	st.boundHit = h.timedOut > 0
 	for _, p := range h.plays {
